@@ -345,6 +345,10 @@ def _r3_as(model: Model, run: Run, neg: FuncInfo, sides: dict[str, str]) -> None
                 from_cap = 'FOUR_BYTES_ASN' in txt and (openname in txt or any(k in txt for k, s in sides.items() if s == side))
             if trans_guard and from_cap:
                 good = True
+                if side == 'sent':
+                    # what WE are does not depend on what the peer announced
+                    foreign = [norm(t) for t, pol in g if 'self.asn4' in norm(t) or 'received_open' in norm(t) or any(k in norm(t) for k, s_ in sides.items() if s_ == 'recv')]
+                    run.check(not foreign, neg.qualname, 'the local AS is taken from our own OPEN whatever the peer supports', neg.loc(fx), 'the fix-up of self.local_as is conditioned on the peer (%s): towards a peer without 4-byte AS support our AS stays 23456, so the default AS_PATH prepends AS_TRANS and an iBGP session between 4-byte ASes is treated as eBGP' % '; '.join(foreign))
         run.check(
             good,
             neg.qualname,
